@@ -277,6 +277,9 @@ def _units(ctx, rel, q, fn, cfg, defs, deg_params, returns_deg=()):
         for i in returns_deg:
             e = ret.value.elts[i]
             u = _unit(e, rn, defs, deg_params)
+            if u not in (DEG, RAD):
+                # the unit inference does not look into helper functions; decide by value instead: an angle in degrees is (180/pi) * acos(...)
+                u = _unit_by_value(fn, i) or u
             ctx.decide(u == DEG, "C17-R5", ret, rel, q, "returned %s in degrees" % src(e), "", "returned angle `%s` is in %s" % (src(e), u))
 
 
@@ -336,10 +339,7 @@ def _r4(ctx):
     ctx.decide("self._unitcell_lengths is not None and self._unitcell_angles is not None" in t, "C17-R4", hv, TRAJ, "Trajectory._have_unitcell.getter",
                "cell present iff both fields present", "", "_have_unitcell no longer requires both lengths and angles")
     sl = ctx.py.func(TRAJ, "Trajectory.slice")
-    for f in ("unitcell_angles", "unitcell_lengths"):
-        ifs = [n for n in walk_no_nested(sl) if isinstance(n, ast.If) and src(n.test) == "self.%s is not None" % f and
-               any(isinstance(x, ast.Assign) and dotted(x.targets[0]) == f and "[key]" in src(x.value) for x in n.body)]
-        ctx.decide(bool(ifs), "C17-R4", sl, TRAJ, "Trajectory.slice", "%s sliced under its own None test" % f, "", "slice no longer carries %s when present" % f)
+    _r4_slice_by_evaluation(ctx, sl)
     if n_sites < 15:
         raise AnalysisError("only %d unit-cell construction/assignment sites found" % n_sites)
 
@@ -358,6 +358,10 @@ def lammps_bounds(ctx, rule):
                 if cn in ("np.min", "np.max", "min", "max"):
                     t = dotted(n.targets[0]) or ""
                     arg = n.value.right.args[0]
+                    if isinstance(arg, ast.Name):
+                        ds = [d for d in local_defs(fn).get(arg.id, [])]
+                        if len(ds) == 1 and isinstance(ds[0], (ast.List, ast.Tuple)):
+                            arg = ds[0]        # min(x_shifts) with x_shifts = [0.0, xy, xz, xy + xz]
                     elts = {src(e) for e in (arg.elts if isinstance(arg, (ast.List, ast.Tuple)) else n.value.right.args)}
                     elts = {"0.0" if e in ("0", "0.0") else e for e in elts}
                     out[t] = (type(n.value.op).__name__, cn.split(".")[-1], elts, n)
@@ -455,8 +459,7 @@ def r7_gram(ctx):
                     asg = [s_ for s_ in blk if isinstance(s_, ast.Assign)]
     try:
         pw = PySym({"lengths": Vec([sym("a_length"), sym("b_length"), sym("c_length")]), "angles": Vec([sym("alpha"), sym("beta"), sym("gamma")])})
-        keep = {"a", "b", "c", "alpha", "beta", "gamma", "lx", "ly", "lz", "xy", "xz", "yz"}
-        pw.run([s_ for s_ in asg if all(isinstance(x, ast.Name) and x.id in keep for t_ in s_.targets for x in (t_.elts if isinstance(t_, ast.Tuple) else [t_]))])
+        pw.run([s_ for s_ in asg if all(isinstance(x, ast.Name) for t_ in s_.targets for x in (t_.elts if isinstance(t_, ast.Tuple) else [t_]))])
     except Unsupported as e:
         ctx.undecided("C17-R7", wb, LMP, "LAMMPSTrajectoryFile.write_box", "tilt factors", "not evaluable: %s" % e)
         return
@@ -466,21 +469,31 @@ def r7_gram(ctx):
         ctx.decide(ok, "C17-R7", wb, LMP, "LAMMPSTrajectoryFile.write_box", "%s as in lengths_and_angles_to_tilt_factors" % nm, "", "write_box computes %s = %r" % (nm, got))
     # reader: inverse of the writer for positive lengths
     pb = ctx.py.func(LMP, "LAMMPSTrajectoryFile.parse_box")
-    stmts = []
+    # the reader's triclinic block, from the unpacking of the three tilt factors on, evaluated on what the writer put into the file:
+    # line k holds `<lo_bound> <hi_bound> <tilt>`, i.e. box[k, 0], box[k, 1] and factors[k]
+    blk = None
     for n in ast.walk(pb):
-        if isinstance(n, ast.Assign) and isinstance(n.targets[0], ast.Name) and n.targets[0].id in ("a", "b", "c", "alpha", "beta", "gamma") and \
-                any(isinstance(x, ast.Name) and x.id in ("lx", "ly", "lz", "xy", "xz", "yz") for x in ast.walk(n.value)):
-            stmts.append(n)
-    if len(stmts) < 6:
-        ctx.undecided("C17-R7", pb, LMP, "LAMMPSTrajectoryFile.parse_box", "inverse of write_box", "the six triclinic assignments were not found")
+        if isinstance(n, ast.If):
+            for body in (n.body, n.orelse):
+                if any(isinstance(s_, ast.Assign) and isinstance(s_.value, ast.Call) and call_name(s_.value) in ("np.arccos", "np.arctan2", "math.acos") for s_ in body):
+                    blk = body
+    if blk is None:
+        ctx.undecided("C17-R7", pb, LMP, "LAMMPSTrajectoryFile.parse_box", "inverse of write_box", "the triclinic block of the reader was not found")
         return
-    # feed the writer's values (in the writer's symbol table) into the reader's formulas
+    start = 0
+    for k_, s_ in enumerate(blk):
+        if isinstance(s_, ast.Assign) and isinstance(s_.targets[0], ast.Tuple) and [dotted(e) for e in s_.targets[0].elts] == ["xy", "xz", "yz"]:
+            start = k_ + 1
+    stmts = [s_ for s_ in blk[start:] if isinstance(s_, ast.Assign) and all(isinstance(t_, ast.Name) for t_ in s_.targets) and not any(isinstance(c_, ast.Attribute) and c_.attr in ("readline", "_fh") for c_ in ast.walk(s_))]
+    need = ["xlo_bound", "xhi_bound", "ylo_bound", "yhi_bound", "zlo_bound", "zhi_bound", "xy", "xz", "yz"]
     pw.positive = {"a_length", "b_length", "c_length"}
-    if any(nm not in pw.env for nm in names):
-        ctx.undecided("C17-R7", wb, LMP, "LAMMPSTrajectoryFile.write_box", "tilt factors", "assignments to %s not found in write_box" % [nm for nm in names if nm not in pw.env])
+    if any(nm not in pw.env for nm in need):
+        ctx.undecided("C17-R7", wb, LMP, "LAMMPSTrajectoryFile.write_box", "box bounds", "assignments to %s not found in write_box" % [nm for nm in need if nm not in pw.env])
         return
-    env2 = {nm: pw.env[nm] for nm in names}
-    saved = dict(pw.env)
+    env2 = {"xy": pw.env["xy"], "xz": pw.env["xz"], "yz": pw.env["yz"]}
+    for k_, ax in enumerate("xyz"):
+        env2["box[%d,0]" % k_] = pw.env[ax + "lo_bound"]
+        env2["box[%d,1]" % k_] = pw.env[ax + "hi_bound"]
     pw.env = env2
     try:
         pw.run(stmts)
@@ -701,3 +714,60 @@ def _blocks(fn):
                 visit(h.body)
     visit(fn.body)
     return out
+
+
+def _unit_by_value(fn, i):
+    """DEG / RAD for element i of the returned tuple when its value is k * acos(...) / atan2(...) with k = 180/pi or 1 (value numbering), else None"""
+    from ..pysym import PySym, Vec, Unsupported
+    from ..poly import Poly, Rat
+    try:
+        env = {p: Vec([Rat(Poly.var("%s%s" % (p, ax))) for ax in "xyz"]) for p in params(fn)}
+        ps = PySym(env).run(fn.body)
+        v = ps.returned[i] if ps.returned is not None else None
+    except (Unsupported, Exception):
+        return None
+    if v is None or isinstance(v, Vec):
+        return None
+    inv = [s_ for s_, (f, a) in ps.opaque.items() if f in ("acos", "atan2", "asin") and s_ in v.vars()]
+    if len(inv) != 1:
+        return None
+    k = v / Rat(Poly.var(inv[0]))
+    pi = Rat(Poly.var("pi"))
+    if ps.equal(k, Rat(Poly.const(180)) / pi):
+        return DEG
+    if ps.equal(k, Rat(Poly.const(1))):
+        return RAD
+    return None
+
+
+def _r4_slice_by_evaluation(ctx, sl):
+    """slice() carries the cell: evaluated (sa/tensym.py) on a 3-frame model with a cell - both fields of the result are the source's [key] -
+    and without one - both stay None; for copy=True and copy=False."""
+    from ..tensym import TenSym, Ten, Obj, Unsupported as TUnsupported, ShapeError
+
+    def ctor(xyz, topology, time=None, unitcell_lengths=None, unitcell_angles=None, **kw):
+        return Obj(xyz=xyz, time=time, unitcell_lengths=unitcell_lengths, unitcell_angles=unitcell_angles, _built=True)
+    for cell in (True, False):
+        for copy in (True, False):
+            what = "slice(0:2, copy=%s) of a trajectory %s a cell: lengths and angles of the result are %s" % (copy, "with" if cell else "without", "self's [key]" if cell else "None")
+            L_, A_ = (Ten.sym("len", (3, 3)), Ten.sym("ang", (3, 3))) if cell else (None, None)
+            me = Obj(xyz=Ten.sym("x", (3, 2, 3)), time=Ten.sym("t", (3,)), unitcell_lengths=L_, unitcell_angles=A_, _unitcell_lengths=L_, _unitcell_angles=A_, _rmsd_traces=None, _topology=Obj(tag="top"),
+                     _xyz=None, _time=None, _lenient=True)
+            me._ctor = ctor
+            ev = TenSym({}, models={"deepcopy": lambda e_, c_: Obj(tag="copy"), "copy.deepcopy": lambda e_, c_: Obj(tag="copy")})
+            try:
+                got = ev.run_fn(sl, self=me, key=slice(0, 2), copy=copy)
+                pr = []
+                for f_, src_ in (("unitcell_lengths", L_), ("unitcell_angles", A_)):
+                    v = getattr(got, f_, "<missing>")
+                    if cell:
+                        d = ev.first_difference(v, ev.getitem(src_, slice(0, 2))) if isinstance(v, Ten) else "is %r" % (v,)
+                        if d:
+                            pr.append("%s of the result: %s" % (f_, d))
+                    elif v is not None:
+                        pr.append("%s of the result is not None" % f_)
+                ctx.decide(not pr, "C17-R4", sl, TRAJ, "Trajectory.slice", what, "", "; ".join(pr))
+            except ShapeError as e:
+                ctx.violated("C17-R4", sl, TRAJ, "Trajectory.slice", what, "array operations do not fit: %s" % e)
+            except TUnsupported as e:
+                ctx.undecided("C17-R4", sl, TRAJ, "Trajectory.slice", what, "not evaluable: %s" % e)
